@@ -205,6 +205,9 @@ func (m *Machine) builtin(name string, args []Value, cc *ssa.CallCommon) Value {
 		case Slice:
 			return BV(64, uint64(x.len))
 		case *MapObj:
+			if m.hb != nil {
+				m.hbMem(x, false, false)
+			}
 			return BV(64, uint64(len(x.keys)))
 		case NilPtr:
 			return BV(64, 0)
@@ -354,6 +357,9 @@ func (m *Machine) builtin(name string, args []Value, cc *ssa.CallCommon) Value {
 			return nil
 		}
 		mo := args[0].(*MapObj)
+		if m.hb != nil {
+			m.hbMem(mo, true, false)
+		}
 		i := m.mapFind(mo, args[1])
 		if i >= 0 {
 			mo.keys = append(mo.keys[:i], mo.keys[i+1:]...)
@@ -538,6 +544,16 @@ func (m *Machine) intrinsic(name string, fn *ssa.Function, args []Value) (Value,
 			b.st.Write(Bin("bvadd", b.off, BV(64, uint64(i))), m.newVar("rand", 8))
 		}
 		return Tuple{b.len, Iface{}}, true
+	case "(*strings.Builder).String":
+		// unsafe.String(unsafe.SliceData(b.buf), len(b.buf)): the bytes written so far
+		st := (*args[0].(SlotPtr).p).(Struct)
+		b := st[len(st)-1].(Bytes)
+		if b.st == nil {
+			return strLit(""), true
+		}
+		return String{h: b.st.snapshot(), off: b.off, len: b.len, maxLen: b.maxLen}, true
+	case "internal/abi.NoEscape", "strings.noescape", "runtime.noescape":
+		return args[0], true
 	case "errors.Is":
 		// the errors the repo compares are plain sentinel values (no Unwrap chains reach here)
 		a, b := args[0].(Iface), args[1].(Iface)
